@@ -37,11 +37,66 @@ def run(res, tier, seed, replay):
     from ..gendoc.model import ApiModel
     from ..gendoc.render import render, canonical_plan
     projects = []
-    for s, mj in list((last.get("models") or {}).items())[: (60 if tier == "quick" else 600)]:
+    for s, mj in list((last.get("models") or {}).items())[: (120 if tier == "quick" else 1200)]:
         m = ApiModel.from_json(json.dumps(mj))
         files = render(m, canonical_plan())
         root = "main.jst" if "main.jst" in files else sorted(files)[0]
         projects.append([(root, files[root])] + [(n, c) for n, c in files.items() if n != root])
+    # the same documents with the Protocol directive written LAST among the children of its URL (it may stand anywhere)
+    moved = []
+    for pj in projects:
+        t = pj[0][1].decode("utf-8", "replace")
+        if "\n  Protocol json-rpc-2.0\n" not in t:
+            continue
+        import re as _re
+        top = _re.compile(r"^(JSIGHT|INFO|URL|GET|POST|PUT|PATCH|DELETE|TYPE|ENUM|SERVER|TAG|MACRO|PASTE|INCLUDE)(?= |$)")
+        lines = t.split("\n")
+        out, i = [], 0
+        while i < len(lines):
+            if not lines[i].startswith("URL "):
+                out.append(lines[i])
+                i += 1
+                continue
+            j = i + 1
+            while j < len(lines) and not top.match(lines[j]):
+                j += 1
+            blk = lines[i:j]
+            if "  Protocol json-rpc-2.0" in blk:
+                blk.remove("  Protocol json-rpc-2.0")
+                k = len(blk)
+                while k > 1 and blk[k - 1].strip() == "":
+                    k -= 1
+                blk[k:k] = ["  Protocol json-rpc-2.0"]
+            out += blk
+            i = j
+        moved.append((pj, [(pj[0][0], "\n".join(out).encode("utf-8"))] + pj[1:]))
+    if moved:
+        from .. import proj as P
+        a = C.run_sharded("harness", "fn", [P.run_line("out=json", x) for x, _ in moved])
+        b = C.run_sharded("harness", "fn", [P.run_line("out=json", y) for _, y in moved])
+
+        def sans_examples(d):
+            # the example of a regex type depends on how often the shared generator was used before: not a declaration
+            def rec(o):
+                if isinstance(o, dict):
+                    return {k: rec(v) for k, v in o.items() if k != "example"}
+                if isinstance(o, list):
+                    return [rec(v) for v in o]
+                return o
+            try:
+                return json.dumps(rec(json.loads(C.unhx(d.get("json", "")))))
+            except Exception:
+                return d.get("json")
+        res.count(2 * len(moved))
+        res.notes["protocol_written_last"] = len(moved)
+        for (x, y), oa, ob in zip(moved, a, b):
+            sa, da = P.parse(oa)
+            sb, db = P.parse(ob)
+            if sa == "ok" and (sb != "ok" or sans_examples(da) != sans_examples(db)):
+                res.violation("the catalog is not what the document declares: with the Protocol directive written after the methods of its URL the result "
+                              "changes: %s" % (ob[:200] if sb != "ok" else "accepted with a different catalog"),
+                              {"project": [(C.hx(n), C.hx(c)) for n, c in y], "original": [(C.hx(n), C.hx(c)) for n, c in x]})
+                return
     recs = K.compare_full(projects, "out=both")
     res.count(2 * len(projects))
     res.coverage["traces_validated_against_impl"] += len(projects)
